@@ -3,6 +3,7 @@ package c04
 import (
 	"fmt"
 	"strings"
+	"time"
 
 	rt "github.com/arnodel/golua/runtime"
 
@@ -205,18 +206,46 @@ type reentryLimits struct {
 	def  rt.RuntimeContextDef
 }
 
-var reentryConfigs = []reentryLimits{
-	{"cpu2e6-mem64M", runLimits},
-	{"cpu5e7-mem64M", bigLimits},
-	{"cpu5e7-mem16M", rt.RuntimeContextDef{HardLimits: rt.RuntimeResources{Cpu: 50_000_000, Memory: 16 << 20}}},
-	{"cpu2e8-mem512M", rt.RuntimeContextDef{HardLimits: rt.RuntimeResources{Cpu: 200_000_000, Memory: 512 << 20}}},
-}
+var (
+	cfgStd    = reentryLimits{"cpu2e6-mem64M", runLimits}
+	cfgSmall  = reentryLimits{"cpu3e5-mem64M", srcLimits}
+	cfgLong   = reentryLimits{"cpu5e7-mem64M", bigLimits}
+	cfgTight  = reentryLimits{"cpu5e7-mem16M", rt.RuntimeContextDef{HardLimits: rt.RuntimeResources{Cpu: 50_000_000, Memory: 16 << 20}}}
+	cfgWide   = reentryLimits{"cpu5e7-mem512M", rt.RuntimeContextDef{HardLimits: rt.RuntimeResources{Cpu: 50_000_000, Memory: 512 << 20}}}
+	cfgWideQ  = reentryLimits{"cpu2e7-mem512M", rt.RuntimeContextDef{HardLimits: rt.RuntimeResources{Cpu: 20_000_000, Memory: 512 << 20}}}
+	wideQuick = map[string]bool{"meta__add": true, "meta__index-fn": true, "meta__concat": true, "meta__close": true, "pcall": true, "gsub-callback": true,
+		"coroutine-wrap-nest": true, "meta__tostring": true}
+)
 
 var reentryDepths = []int{100, 10000, 100000, 1000000}
 
+// configsFor lists the limit configurations a program runs under.  The quick
+// tier uses the standard limits for every program plus a wide configuration
+// (512 MB: room for ~10^6 levels) for a few; the sanitizer builds, which
+// multiply real memory and time, use the small one.
+func (x *exec) configsFor(p reentryProg) []reentryLimits {
+	san := x.variant != "plain"
+	if x.c.Tier == vp.Thorough {
+		if san {
+			return []reentryLimits{cfgStd, cfgTight}
+		}
+		return []reentryLimits{cfgStd, cfgLong, cfgTight, cfgWide}
+	}
+	if san {
+		return []reentryLimits{cfgSmall}
+	}
+	if wideQuick[p.name] {
+		return []reentryLimits{cfgStd, cfgWideQ}
+	}
+	return []reentryLimits{cfgStd}
+}
+
 func runReentry(x *exec) {
 	c := x.c
-	x.caseWall = 600 * 1e9
+	x.caseWall = 45 * time.Second
+	if c.Tier == vp.Thorough {
+		x.caseWall = 400 * time.Second
+	}
 	k := 0
 	for _, p := range reentryProgs() {
 		depths := []int{0}
@@ -224,14 +253,9 @@ func runReentry(x *exec) {
 			depths = reentryDepths
 		}
 		for _, d := range depths {
-			for _, cfg := range reentryConfigs {
+			for _, cfg := range x.configsFor(p) {
 				k++
 				if !c.Mine(k) {
-					continue
-				}
-				if cfg.def.HardLimits.Memory > 64<<20 && x.variant != "plain" {
-					// the sanitizer builds multiply real memory; the wide
-					// configuration is exercised on the plain build only
 					continue
 				}
 				x.reentryCase(p, d, cfg)
